@@ -235,14 +235,14 @@ registered exactly while the table entry exists — or stays registered after a
 partner died, when it returns at once — so it needs no state of its own;
 `on_trait_change` does not register the same handler twice.  The entry and the
 handlers stay when the `setattr` raises. -/
+def World.register (E : Env α) (w : World α) (p q : Pair) : World α :=
+  { w with edges := w.edges ++ [(⟨p, q⟩ : Edge)],
+           hooked := if (w.partners p).isEmpty && E.isList p.2 && E.isList q.2 && !(decide (p ∈ w.hooked))
+                     then p :: w.hooked else w.hooked }
+
 def World.linkOne [DecidableEq α] (E : Env α) (w : World α) (p q : Pair) : Res α :=
   if (⟨p, q⟩ : Edge) ∈ w.edges then { world := w }
-  else
-    let w1 : World α :=
-      { w with edges := w.edges ++ [(⟨p, q⟩ : Edge)],
-               hooked := if (w.partners p).isEmpty && E.isList p.2 && E.isList q.2 && !(decide (p ∈ w.hooked))
-                         then p :: w.hooked else w.hooked }
-    w1.assign E q (w1.val p)
+  else (w.register E p q).assign E q (w.val p)
 
 /-- `self.sync_trait(p.2, object, q.2, mutual)`; the mutual half is
 `object.sync_trait(alias, self, trait_name, False)` (has_traits.py:2742-2743),
